@@ -15,9 +15,12 @@ MANIFEST_ENTRY = {
           "checker decides that proposition; for all 73^3 token triples and all token sequences of length <= 5 over an 18-token "
           "reduced alphabet, for three initial states of the data object, every build accepted by the parser and worklist-builder "
           "models is well-formed or in finding class C05-K1, and the structurally recursive tree compiler (Model/Compile.v) "
-          "produces exactly the worklist model's code; machine-checked witnesses show the two exclusions are necessary. "
-          "The inductive theorem over all proper trees (C05_full_statement) is stated, not yet proved: proof (partial: bounded "
-          "theorems + checker soundness + refutations). On every run the worklist model, the tree compiler and the real "
+          "produces exactly the worklist model's code; machine-checked witnesses show the two exclusions are necessary; and "
+          "C05_full: for EVERY proper tree outside C05-K1 / C05-K2 and EVERY initial state, the code the tree compiler "
+          "produces is well-formed (induction on the tree with the pending-bodies invariant: every placeholder is owned by a "
+          "registered body or arm, every registered body is emitted, patches its placeholder, adds an instruction and ends in "
+          "a terminator). What remains bounded is the equality of the tree compiler with the worklist transliteration of "
+          "build(), which is also diffed on every run. On every run the worklist model, the tree compiler and the real "
           "build() are diffed instruction-for-instruction on all token triples, a fixed corpus, grammar-generated programs and "
           "programs built after another program, on both data implementations, and the checker is evaluated natively on every "
           "real instruction stream and must agree with the extracted Coq checker.",
@@ -200,7 +203,9 @@ def run(tier, seed):
         "C05_reduced_bounded_5": "bounded(5 tokens, reduced alphabet)", "C05_compile_agrees_bounded_3": "bounded(3)",
         "C05_compile_agrees_bounded_5": "bounded(5, reduced)", "C05_K1_refuted": "refuted-witness",
         "C05_K1_shared_refuted": "refuted-witness", "C05_K2_refuted": "refuted-witness",
-        "C05_full_statement": "stated, not proved (induction on the tree with the pending-bodies invariant)"}
+        "C05_operands_meta_all_trees": "full (all trees, all initial states, no exclusion)",
+        "C05_full": "full for the tree compiler (all proper trees outside C05-K1/K2, all initial states); tied to the worklist "
+                    "model by the bounded agreement theorems and the differential run"}
     ok, exe, out = cl.harness_exe("wfcode")
     if not ok:
         v.tie_failure("harness build failed: " + out)
